@@ -30,20 +30,17 @@ theorem poolExceeded_leaves :
 /-- `TxCache.isCapacityExceeded` is the model's `Pool.exceeded` (counters read through their clamped getters) -/
 theorem poolExceeded_eq (p : TxCache.Pool) :
     p.exceeded =
-      Gen.poolExceeded (Gen.tooManyBytes (TxCache.clampNat p.numBytes) p.cfg.numBytesThreshold)
-        (Gen.tooManySenders (TxCache.clampNat p.cntSenders) p.cfg.countThreshold)
-        (Gen.tooManyTxs (TxCache.clampNat p.cntTx) p.cfg.countThreshold) := by
+      Gen.poolExceeded (cache_areThereTooManyBytes := (Gen.tooManyBytes (cache_NumBytes := (TxCache.clampNat p.numBytes)) (cache_config_NumBytesThreshold := p.cfg.numBytesThreshold))) (cache_areThereTooManySenders := (Gen.tooManySenders (cache_CountSenders := (TxCache.clampNat p.cntSenders)) (cache_config_CountThreshold := p.cfg.countThreshold))) (cache_areThereTooManyTxs := (Gen.tooManyTxs (cache_CountTx := (TxCache.clampNat p.cntTx)) (cache_config_CountThreshold := p.cfg.countThreshold))) := by
   simp only [TxCache.Pool.exceeded, Gen.poolExceeded, Gen.tooManyBytes, Gen.tooManySenders, Gen.tooManyTxs, gt_iff_lt,
     dec_natCast_lt]
 
 theorem senderExceeded_leaves :
-    Gen.senderExceeded_leaves = ["listForSender.constraints.maxNumBytes : Int", "listForSender.constraints.maxNumTxs : Int",
-      "listForSender.totalBytes.Get() : Int", "listForSender.countTx() : Int"] := rfl
+    Gen.senderExceeded_leaves = ["listForSender.constraints.maxNumBytes : Int", "listForSender.constraints.maxNumTxs : Int", "listForSender.countTx() : Int", "listForSender.totalBytes.Get() : Int"] := rfl
 
 /-- `txListForSender.isCapacityExceeded` is the model's `senderExceeded` -/
 theorem senderExceeded_eq (cfg : TxCache.Config) (l : List TxCache.Tx) :
     TxCache.senderExceeded cfg l =
-      Gen.senderExceeded cfg.numBytesPerSender cfg.countPerSender (TxCache.listBytes l) l.length := by
+      Gen.senderExceeded (listForSender_constraints_maxNumBytes := cfg.numBytesPerSender) (listForSender_constraints_maxNumTxs := cfg.countPerSender) (listForSender_totalBytes_Get := (TxCache.listBytes l)) (listForSender_countTx := l.length) := by
   simp only [TxCache.senderExceeded, Gen.senderExceeded, gt_iff_lt, dec_natCast_lt]
 
 end SV.GenProofs
